@@ -16,8 +16,49 @@ import (
 
 // Lock identifies a mutex as a path of field names below a root value (usually the receiver parameter).
 type Lock struct {
-	Root ssa.Value
-	Path string // e.g. "mu" or "pool.mu"
+	Root     ssa.Value
+	RootPath string // access path of Root from a parameter / local, e.g. "s" or "s.pool" ("" when not expressible)
+	Path     string // e.g. "mu" or "pool.mu"
+}
+
+// PathOf renders the access path of a pointer value: parameter or free variable name followed by the fields
+// loaded on the way (s, s.pool, m.localPool).  Two loads of the same field chain get the same path.
+func PathOf(v ssa.Value) string {
+	switch x := v.(type) {
+	case *ssa.Parameter:
+		return x.Name()
+	case *ssa.FreeVar:
+		return x.Name()
+	case *ssa.UnOp:
+		if fa, ok := x.X.(*ssa.FieldAddr); ok {
+			if b := PathOf(fa.X); b != "" {
+				return b + "." + fieldName(fa)
+			}
+		}
+	case *ssa.FieldAddr:
+		if b := PathOf(x.X); b != "" {
+			return b + "." + fieldName(x)
+		}
+	case *ssa.Alloc:
+		if x.Comment != "" {
+			return "local:" + x.Comment
+		}
+		return "local:" + x.Name()
+	case *ssa.Phi:
+		return ""
+	}
+	return ""
+}
+
+func fieldName(fa *ssa.FieldAddr) string {
+	t := fa.X.Type()
+	if p, ok := t.Underlying().(*types.Pointer); ok {
+		t = p.Elem()
+	}
+	if st, ok := t.Underlying().(*types.Struct); ok {
+		return st.Field(fa.Field).Name()
+	}
+	return "?"
 }
 
 func (l Lock) String() string {
@@ -107,9 +148,9 @@ func lockOf(addr ssa.Value) (Lock, bool) {
 				v = fa
 				continue
 			}
-			return Lock{Root: x, Path: strings.Join(path, ".")}, len(path) > 0
+			return Lock{Root: x, RootPath: PathOf(x), Path: strings.Join(path, ".")}, len(path) > 0
 		default:
-			return Lock{Root: v, Path: strings.Join(path, ".")}, len(path) > 0
+			return Lock{Root: v, RootPath: PathOf(v), Path: strings.Join(path, ".")}, len(path) > 0
 		}
 	}
 }
@@ -125,7 +166,12 @@ type heldLock struct {
 	Mode Mode
 }
 
-func key(l Lock) string { return fmt.Sprintf("%p.%s", l.Root, l.Path) }
+func key(l Lock) string {
+	if l.RootPath != "" {
+		return l.RootPath + "." + l.Path
+	}
+	return fmt.Sprintf("%p.%s", l.Root, l.Path)
+}
 
 // Analyze runs the must-held dataflow on f.
 func Analyze(f *ssa.Function) *Held {
@@ -248,8 +294,13 @@ func (h *Held) HeldAt(ins ssa.Instruction) []struct {
 
 // Holds reports whether a lock with the given root and path is definitely held before ins (any mode when mode==0).
 func (h *Held) Holds(ins ssa.Instruction, root ssa.Value, path string, mode Mode) bool {
+	rp := PathOf(root)
 	for _, hl := range h.at[ins] {
-		if hl.Lock.Root == root && hl.Lock.Path == path && (mode == 0 || hl.Mode == mode || hl.Mode == Write) {
+		same := (hl.Lock.Root == root || (rp != "" && rp == hl.Lock.RootPath)) && hl.Lock.Path == path
+		if !same && rp != "" && hl.Lock.RootPath != "" && rp+"."+path == hl.Lock.RootPath+"."+hl.Lock.Path {
+			same = true // s.pool + mu  ≡  s + pool.mu
+		}
+		if same && (mode == 0 || hl.Mode == mode || hl.Mode == Write) {
 			return true
 		}
 	}
@@ -407,7 +458,8 @@ func SelfDeadlocks(f *ssa.Function, sums *Summaries) []Reacquire {
 				}
 				arg := call.Common().Args[a.Param]
 				for _, hl := range held {
-					if hl.Lock.Root == arg && hl.Lock.Path == a.Path && !(hl.Mode == Read && a.Mode == Read) {
+					sameObj := hl.Lock.Root == arg || (hl.Lock.RootPath != "" && hl.Lock.RootPath == PathOf(arg))
+					if sameObj && hl.Lock.Path == a.Path && !(hl.Mode == Read && a.Mode == Read) {
 						out = append(out, Reacquire{Site: call, Lock: hl.Lock, Held: hl.Mode, Callee: g, Acq: a})
 					}
 				}
